@@ -334,146 +334,275 @@ Proof.
   split; auto. eapply frame_trans; eauto.
 Qed.
 
-(* what a provisioning step may change below N: the bookkeeping cell, and the nomination field of a cluster node *)
-Definition same_except (n : string) (c c' : cell) : Prop :=
+(* ------------------------------------------------------------------ what may change below N, per address *)
+
+Definition cacheF : string := "allocatableOfferings".
+Definition nomF : string := "nominatedUntil".
+
+Lemma wname_cache : wname cacheF = false. Proof. reflexivity. Qed.
+
+Definition same_except_l (ns : list string) (c c' : cell) : Prop :=
   match c, c' with
-  | CObj ty fs, CObj ty' fs' => ty' = ty /\ forall m, m <> n -> lookup fs' m = lookup fs m
+  | CObj ty fs, CObj ty' fs' => ty' = ty /\ forall m, ~ In m ns -> lookup fs' m = lookup fs m
   | _, _ => c' = c
   end.
 
-Lemma same_except_refl : forall n c, same_except n c c.
-Proof. intros n [| |ty fs]; simpl; auto. Qed.
+Lemma same_except_l_refl : forall ns c, same_except_l ns c c.
+Proof. intros ns [| |ty fs]; simpl; auto. Qed.
 
-Lemma same_except_trans : forall n c1 c2 c3, same_except n c1 c2 -> same_except n c2 c3 -> same_except n c1 c3.
+Lemma same_except_l_trans : forall ns c1 c2 c3, same_except_l ns c1 c2 -> same_except_l ns c2 c3 -> same_except_l ns c1 c3.
 Proof.
-  intros n c1 c2 c3 H1 H2.
+  intros ns c1 c2 c3 H1 H2.
   destruct c1 as [|p1|t1 f1]; destruct c2 as [|p2|t2 f2]; simpl in H1; try discriminate H1; try (inversion H1; subst);
     destruct c3 as [|p3|t3 f3]; simpl in H2; try discriminate H2; try (inversion H2; subst); simpl; auto.
   destruct H1 as [E1 L1]. destruct H2 as [E2 L2]. subst. split; auto.
   intros m Hm. rewrite L2, L1; auto.
 Qed.
 
-Definition pframe (e : env) (N : addr) (h h' : heap) : Prop :=
-  next h <= next h' /\
-  forall a, a < N -> a <> e_book e ->
-    same_except "nominatedUntil" (cells h a) (cells h' a) /\ (~ In a (e_roots e) -> cells h' a = cells h a).
-
-Lemma frame_pframe : forall e N h h', frame N h h' -> pframe e N h h'.
+Lemma same_except_l_mono : forall ns ns' c c', incl ns ns' -> same_except_l ns c c' -> same_except_l ns' c c'.
 Proof.
-  intros e N h h' [A B]. split; auto. intros a Ha _. rewrite (B a Ha). split; auto using same_except_refl.
+  intros ns ns' c c' Hi H. destruct c as [|p|t f]; destruct c' as [|p'|t' f']; simpl in *; try exact H.
+  destruct H as [E L]. split; [exact E|]. intros m Hm. apply L. intro Hin. apply Hm. apply Hi. exact Hin.
 Qed.
 
-Lemma pframe_trans : forall e N h1 h2 h3, pframe e N h1 h2 -> pframe e N h2 h3 -> pframe e N h1 h3.
+(* None: the cell may change arbitrarily; Some []: it must stay equal; Some ns: only the fields ns may change *)
+Definition rel (ex : option (list string)) (c c' : cell) : Prop :=
+  match ex with
+  | None => True
+  | Some [] => c' = c
+  | Some ns => same_except_l ns c c'
+  end.
+
+Lemma rel_refl : forall ex c, rel ex c c.
+Proof. intros [[|n ns]|] c; simpl; auto using same_except_l_refl. Qed.
+
+Lemma rel_trans : forall ex c1 c2 c3, rel ex c1 c2 -> rel ex c2 c3 -> rel ex c1 c3.
 Proof.
-  intros e N h1 h2 h3 [A1 B1] [A2 B2]. split; [lia|].
-  intros a Ha Hb. destruct (B1 a Ha Hb) as [X1 Y1]. destruct (B2 a Ha Hb) as [X2 Y2].
-  split; [eapply same_except_trans; eauto|]. intro Hn. rewrite Y2, Y1; auto.
+  intros [[|n ns]|] c1 c2 c3 H1 H2; simpl in *; auto.
+  - congruence.
+  - eapply same_except_l_trans; eauto.
 Qed.
 
-Lemma pframe_refl : forall e N h, pframe e N h h.
-Proof. intros. apply frame_pframe, frame_refl. Qed.
+Definition policy := addr -> option (list string).
 
-Lemma set_nominated : forall e N h r t, St N h -> In r (e_roots e) ->
-  St N (set_field h r "nominatedUntil" (VInt t)) /\ pframe e N h (set_field h r "nominatedUntil" (VInt t)).
+Definition xframe (al : policy) (N : addr) (h h' : heap) : Prop :=
+  next h <= next h' /\ forall a, a < N -> rel (al a) (cells h a) (cells h' a).
+
+Lemma frame_xframe : forall al N h h', frame N h h' -> xframe al N h h'.
+Proof. intros al N h h' [A B]. split; auto. intros a Ha. rewrite (B a Ha). apply rel_refl. Qed.
+
+Lemma xframe_refl : forall al N h, xframe al N h h.
+Proof. intros. apply frame_xframe, frame_refl. Qed.
+
+Lemma xframe_trans : forall al N h1 h2 h3, xframe al N h1 h2 -> xframe al N h2 h3 -> xframe al N h1 h3.
 Proof.
-  intros e N h r t HSt Hin. unfold set_field.
-  destruct (cells h r) eqn:E; try (split; [auto|apply pframe_refl]).
-  assert (r < next h) as Hr by (apply wf_alloc_lt; [apply HSt|congruence]).
+  intros al N h1 h2 h3 [A1 B1] [A2 B2]. split; [lia|].
+  intros a Ha. eapply rel_trans; eauto.
+Qed.
+
+Lemma xframe_weaken : forall al N M h h', M <= N -> xframe al N h h' -> xframe al M h h'.
+Proof. intros al N M h h' HM [A B]. split; auto. intros a Ha. apply B. lia. Qed.
+
+Definition allows (al : policy) (a : addr) (n : string) : Prop :=
+  match al a with None => True | Some ns => In n ns end.
+
+Lemma set_field_x : forall al N h a n v, St N h -> wname n = false -> allows al a n ->
+  St N (set_field h a n v) /\ xframe al N h (set_field h a n v).
+Proof.
+  intros al N h a n v HSt Hn Hal. unfold set_field.
+  destruct (cells h a) eqn:E; try (split; [auto|apply xframe_refl]).
+  assert (a < next h) as Hr by (apply wf_alloc_lt; [apply HSt|congruence]).
   split.
   - apply write_St_only; auto. intros Hx. simpl. intros m q Hw Hl.
-    assert (m <> "nominatedUntil") as Hne.
-    { intro; subst. apply is_wpath_wname in Hw. rewrite wname_nominated in Hw. discriminate. }
+    assert (m <> n) as Hne. { intro; subst. apply is_wpath_wname in Hw. congruence. }
     rewrite lookup_update_other in Hl; auto.
-    destruct HSt as [_ [_ Hok]]. specialize (Hok r Hx). rewrite E in Hok. simpl in Hok. eauto.
-  - unfold write, pframe; simpl. split; [lia|].
-    intros a Ha Hb. destruct (Nat.eqb a r) eqn:Ex.
-    + apply Nat.eqb_eq in Ex. subst a. rewrite E. simpl. split.
-      * split; auto. intros m Hm. apply lookup_update_other; auto.
-      * intro Hn. contradiction.
-    + split; auto using same_except_refl.
+    destruct HSt as [_ [_ Hok]]. specialize (Hok a Hx). rewrite E in Hok. simpl in Hok. eauto.
+  - unfold write, xframe; simpl. split; [lia|].
+    intros x Hx. destruct (Nat.eqb x a) eqn:Ex; [|apply rel_refl].
+    apply Nat.eqb_eq in Ex. subst x. rewrite E. unfold allows in Hal. unfold rel.
+    destruct (al a) as [[|n0 ns]|]; auto.
+    + destruct Hal.
+    + simpl. split; auto. intros m Hm. apply lookup_update_other. intro; subst. apply Hm. exact Hal.
 Qed.
 
-Lemma mark_pframe : forall e N h pod, St N h ->
-  St N (leaf_append h (e_book e) pod) /\ pframe e N h (leaf_append h (e_book e) pod).
+Lemma leaf_append_x : forall al N h a k, St N h -> al a = None ->
+  St N (leaf_append h a k) /\ xframe al N h (leaf_append h a k).
 Proof.
-  intros e N h pod HSt. unfold leaf_append.
-  destruct (cells h (e_book e)) eqn:E; try (split; [auto|apply pframe_refl]).
-  assert (e_book e < next h) as Hr by (apply wf_alloc_lt; [apply HSt|congruence]).
+  intros al N h a k HSt Hal. unfold leaf_append.
+  destruct (cells h a) eqn:E; try (split; [auto|apply xframe_refl]).
+  assert (a < next h) as Hr by (apply wf_alloc_lt; [apply HSt|congruence]).
   split.
   - apply write_St_only; auto. intros _. exact I.
-  - unfold write, pframe; simpl. split; [lia|].
-    intros a Ha Hb. destruct (Nat.eqb a (e_book e)) eqn:Ex.
-    + apply Nat.eqb_eq in Ex. contradiction.
-    + split; auto using same_except_refl.
+  - unfold write, xframe; simpl. split; [lia|].
+    intros x Hx. destruct (Nat.eqb x a) eqn:Ex; [|apply rel_refl].
+    apply Nat.eqb_eq in Ex. subst x. rewrite Hal. exact I.
 Qed.
 
-Lemma step_good : forall e N copies h o, St N h -> Forall (opt_ge N) copies ->
-  St N (step e copies h o) /\ pframe e N h (step e copies h o) /\
-  (is_sim_op o = true -> frame N h (step e copies h o)).
+Lemma precompute_x : forall al N h a, St N h -> allows al a cacheF ->
+  St N (precompute h a) /\ xframe al N h (precompute h a).
 Proof.
-  intros e N copies h o HSt Hc. destruct o as [i key|s mask|i t|pod]; simpl.
+  intros al N h a HSt Hal. unfold precompute.
+  destruct (cells h a) eqn:E; try (split; [auto|apply xframe_refl]).
+  destruct (String.eqb ty "InstanceType"); try (split; [auto|apply xframe_refl]).
+  set (cap := match get_field h a "InstanceType" "Capacity" with Some m => leaf_of h m | None => [] end).
+  assert (forall hx, (let '(h1, u) := alloc h (CLeaf cap) in set_field h1 a "allocatableOfferings" (VRef (Some u))) = hx ->
+            St N hx /\ xframe al N h hx) as G.
+  { intros hx Hx.
+    pose proof (alloc_St N h (CLeaf cap) HSt I) as [A [B _]].
+    destruct (alloc h (CLeaf cap)) as [h1 u] eqn:Ea. simpl in *. subst hx.
+    destruct (set_field_x al N h1 a "allocatableOfferings" (VRef (Some u)) A wname_cache Hal) as [S2 X2].
+    split; auto. eapply xframe_trans; [apply frame_xframe; exact B|exact X2]. }
+  destruct (lookup fs "allocatableOfferings") as [[z|[r|]]|]; try (apply G; reflexivity).
+  split; [auto|apply xframe_refl].
+Qed.
+
+(* which steps a policy lets through *)
+Definition permits (al : policy) (e : env) (o : sop) : Prop :=
+  match o with
+  | SAddPod _ _ | SNewClaim _ _ => True
+  | SPrecompute t => forall a, nth_error (e_types e) t = Some a -> allows al a cacheF
+  | PNominate i _ => forall r, nth_error (e_roots e) i = Some r -> allows al r nomF
+  | PMark _ => al (e_book e) = None
+  end.
+
+Lemma step_x : forall al e N copies h o, St N h -> Forall (opt_ge N) copies -> permits al e o ->
+  St N (step e copies h o) /\ xframe al N h (step e copies h o).
+Proof.
+  intros al e N copies h o HSt Hc Hp. destruct o as [i key|s mask|t|i t|pod]; simpl.
   - destruct (nth i copies None) as [c|] eqn:En.
     + assert (N <= c) as Hge.
       { destruct (nth_in_or_default i copies None) as [Hin|Hd]; [|rewrite En in Hd; discriminate].
         rewrite Forall_forall in Hc. specialize (Hc _ Hin). rewrite En in Hc. exact Hc. }
-      destruct (en_add_good N h c key HSt Hge) as [S F]. split; [auto|split; [apply frame_pframe; auto|auto]].
-    + split; [auto|split; [apply pframe_refl|intros _; apply frame_refl]].
+      destruct (en_add_good N h c key HSt Hge) as [S F]. split; [auto|apply frame_xframe; auto].
+    + split; [auto|apply xframe_refl].
   - destruct (nth_error (e_slices e) s) as [a|].
-    + destruct (new_claim_good N h a mask HSt) as [S F]. split; [auto|split; [apply frame_pframe; auto|auto]].
-    + split; [auto|split; [apply pframe_refl|intros _; apply frame_refl]].
+    + destruct (new_claim_good N h a mask HSt) as [S F]. split; [auto|apply frame_xframe; auto].
+    + split; [auto|apply xframe_refl].
+  - destruct (nth_error (e_types e) t) as [a|] eqn:En.
+    + apply precompute_x; auto; try (apply (Hp a); exact En).
+    + split; [auto|apply xframe_refl].
   - destruct (nth_error (e_roots e) i) as [r|] eqn:En.
-    + apply nth_error_In in En. destruct (set_nominated e N h r t HSt En) as [S P].
-      split; [auto|split; [auto|intro D; discriminate D]].
-    + split; [auto|split; [apply pframe_refl|intro D; discriminate D]].
-  - destruct (mark_pframe e N h pod HSt) as [S P]. split; [auto|split; [auto|intro D; discriminate D]].
+    + apply set_field_x; auto; try (apply (Hp r); exact En).
+    + split; [auto|apply xframe_refl].
+  - apply leaf_append_x; auto.
 Qed.
 
-Lemma steps_good : forall e N copies ops h, St N h -> Forall (opt_ge N) copies ->
-  St N (fold_left (step e copies) ops h) /\ pframe e N h (fold_left (step e copies) ops h) /\
-  (forallb is_sim_op ops = true -> frame N h (fold_left (step e copies) ops h)).
+Lemma steps_x : forall al e N copies ops h, St N h -> Forall (opt_ge N) copies -> Forall (permits al e) ops ->
+  St N (fold_left (step e copies) ops h) /\ xframe al N h (fold_left (step e copies) ops h).
 Proof.
-  intros e N copies ops. induction ops as [|o ops IH]; intros h HSt Hc; simpl.
-  - split; [auto|split; [apply pframe_refl|intros _; apply frame_refl]].
-  - destruct (step_good e N copies h o HSt Hc) as [S1 [P1 F1]].
-    destruct (IH _ S1 Hc) as [S2 [P2 F2]].
-    split; [auto|split; [eapply pframe_trans; eauto|]].
-    intro Hall. apply andb_true_iff in Hall. destruct Hall as [Ho Hops].
-    eapply frame_trans; eauto.
+  intros al e N copies ops. induction ops as [|o ops IH]; intros h HSt Hc Hp; simpl.
+  - split; [auto|apply xframe_refl].
+  - inversion Hp; subst.
+    destruct (step_x al e N copies h o HSt Hc H1) as [S1 X1].
+    destruct (IH _ S1 Hc H2) as [S2 X2].
+    split; [auto|eapply xframe_trans; eauto].
 Qed.
 
-(* one run: nothing allocated before the run is written, except (provisioning) nominations and bookkeeping *)
-Lemma run_good : forall e h ops, table_ok (e_tbl e) = true -> wf h ->
-  wf (run e h ops) /\ pframe e (next h) h (run e h ops) /\
-  (forallb is_sim_op ops = true -> frame (next h) h (run e h ops)).
+(* one run: DeepCopyNodes allocates; every later write is fresh or permitted by the policy *)
+Lemma run_x : forall al e h ops, table_ok (e_tbl e) = true -> wf h -> Forall (permits al e) ops ->
+  wf (run e h ops) /\ xframe al (next h) h (run e h ops).
 Proof.
-  intros e h ops Hok Hwf. unfold run.
+  intros al e h ops Hok Hwf Hp. unfold run.
   destruct (copy_nodes (e_tbl e) h (e_roots e)) as [h1 copies] eqn:Ec.
   destruct (copy_nodes_good (next h) _ _ _ _ _ Hok (St_start h Hwf) Ec) as [[S1 F1] C1].
-  destruct (steps_good e (next h) copies ops h1 S1 C1) as [S2 [P2 F2]].
-  split; [apply S2|split].
-  - eapply pframe_trans; [apply frame_pframe; exact F1|exact P2].
-  - intro Hall. eapply frame_trans; eauto.
+  destruct (steps_x al e (next h) copies ops h1 S1 C1 Hp) as [S2 X2].
+  split; [apply S2|]. eapply xframe_trans; [apply frame_xframe; exact F1|exact X2].
 Qed.
 
-Lemma frame_weaken : forall N M h h', M <= N -> frame N h h' -> frame M h h'.
-Proof. intros N M h h' HM [A B]. split; auto. intros a Ha. apply B. lia. Qed.
-
-Lemma pframe_weaken : forall e N M h h', M <= N -> pframe e N h h' -> pframe e M h h'.
-Proof. intros e N M h h' HM [A B]. split; auto. intros a Ha. apply B. lia. Qed.
-
-Lemma run_all_good : forall e runs h, table_ok (e_tbl e) = true -> wf h ->
-  wf (run_all e h runs) /\ pframe e (next h) h (run_all e h runs) /\
-  (forallb (forallb is_sim_op) runs = true -> frame (next h) h (run_all e h runs)).
+Lemma run_all_x : forall al e runs h, table_ok (e_tbl e) = true -> wf h -> Forall (Forall (permits al e)) runs ->
+  wf (run_all e h runs) /\ xframe al (next h) h (run_all e h runs).
 Proof.
-  intros e runs. induction runs as [|ops runs IH]; intros h Hok Hwf; simpl.
-  - split; [auto|split; [apply pframe_refl|intros _; apply frame_refl]].
-  - destruct (run_good e h ops Hok Hwf) as [W1 [P1 F1]].
-    destruct (IH _ Hok W1) as [W2 [P2 F2]].
-    assert (next h <= next (run e h ops)) as Hn by (destruct P1; auto).
-    split; [auto|split].
-    + eapply pframe_trans; [exact P1|]. eapply pframe_weaken; eauto.
-    + intro Hall. apply andb_true_iff in Hall. destruct Hall as [Ho Hr].
-      eapply frame_trans; [apply F1; auto|]. eapply frame_weaken; [exact Hn|]. apply F2; auto.
+  intros al e runs. induction runs as [|ops runs IH]; intros h Hok Hwf Hp; simpl.
+  - split; [auto|apply xframe_refl].
+  - inversion Hp; subst.
+    destruct (run_x al e h ops Hok Hwf H1) as [W1 X1].
+    destruct (IH _ Hok W1 H2) as [W2 X2].
+    split; auto. eapply xframe_trans; [exact X1|]. eapply xframe_weaken; [|exact X2]. destruct X1; auto.
+Qed.
+
+(* ------------------------------------------------------------------ the three policies *)
+
+Definition mem_a (a : addr) (l : list addr) : bool := existsb (Nat.eqb a) l.
+
+Lemma mem_a_In : forall a l, mem_a a l = true <-> In a l.
+Proof.
+  intros a l. unfold mem_a. rewrite existsb_exists. split.
+  - intros [x [Hin Hx]]. apply Nat.eqb_eq in Hx. subst. auto.
+  - intro H. exists a. split; auto. apply Nat.eqb_refl.
+Qed.
+
+Definition cache_of (e : env) (a : addr) : list string := if mem_a a (e_types e) then [cacheF] else [].
+Definition nom_of (e : env) (a : addr) : list string := if mem_a a (e_roots e) then [nomF] else [].
+
+(* the scheduler proper: nothing but the lazily computed cache field of provider instance types *)
+Definition al_sched (e : env) : policy := fun a => Some (cache_of e a).
+(* a simulation: additionally the bookkeeping cell (the finding) *)
+Definition al_sim (e : env) : policy := fun a => if Nat.eqb a (e_book e) then None else Some (cache_of e a).
+(* a provisioning pass: additionally nominatedUntil of the cluster's own nodes *)
+Definition al_prov (e : env) : policy :=
+  fun a => if Nat.eqb a (e_book e) then None else Some (nom_of e a ++ cache_of e a).
+
+Lemma cache_allowed : forall e t a, nth_error (e_types e) t = Some a -> In cacheF (cache_of e a).
+Proof.
+  intros e t a H. apply nth_error_In in H. apply mem_a_In in H. unfold cache_of. rewrite H. left; auto.
+Qed.
+
+Lemma nom_allowed : forall e i r, nth_error (e_roots e) i = Some r -> In nomF (nom_of e r).
+Proof.
+  intros e i r H. apply nth_error_In in H. apply mem_a_In in H. unfold nom_of. rewrite H. left; auto.
+Qed.
+
+Definition no_nom (o : sop) : bool := match o with PNominate _ _ => false | _ => true end.
+
+Lemma permits_prov : forall e o, permits (al_prov e) e o.
+Proof.
+  intros e [i key|s mask|t|i t|pod]; simpl; auto.
+  - intros a H. unfold allows, al_prov. destruct (Nat.eqb a (e_book e)); auto.
+    apply in_or_app. right. eapply cache_allowed; eauto.
+  - intros r H. unfold allows, al_prov. destruct (Nat.eqb r (e_book e)); auto.
+    apply in_or_app. left. eapply nom_allowed; eauto.
+  - unfold al_prov. rewrite Nat.eqb_refl. reflexivity.
+Qed.
+
+Lemma permits_sim : forall e o, no_nom o = true -> permits (al_sim e) e o.
+Proof.
+  intros e [i key|s mask|t|i t|pod] H; simpl; auto; try discriminate H.
+  - intros a Ha. unfold allows, al_sim. destruct (Nat.eqb a (e_book e)); auto. eapply cache_allowed; eauto.
+  - unfold al_sim. rewrite Nat.eqb_refl. reflexivity.
+Qed.
+
+Lemma permits_sched : forall e o, is_sim_op o = true -> permits (al_sched e) e o.
+Proof.
+  intros e [i key|s mask|t|i t|pod] H; simpl; auto; try discriminate H.
+  intros a Ha. unfold allows, al_sched. eapply cache_allowed; eauto.
+Qed.
+
+Lemma sched_ops_sim : forall l, Forall (fun o => is_sim_op o = true) (sched_ops l).
+Proof.
+  intro l. unfold sched_ops. induction l as [|o r IH]; simpl; [constructor|].
+  destruct (is_sim_op o) eqn:E; auto.
+Qed.
+
+(* reading a policy result back in plain terms *)
+Lemma rel_cache_of : forall e a c c', rel (Some (cache_of e a)) c c' ->
+  (~ In a (e_types e) -> c' = c) /\ same_except_l [cacheF] c c'.
+Proof.
+  intros e a c c' H. unfold cache_of in H. destruct (mem_a a (e_types e)) eqn:M; simpl in H.
+  - split; auto. intro Hn. exfalso. apply Hn. apply mem_a_In. exact M.
+  - subst. split; auto using same_except_l_refl.
+Qed.
+
+Lemma rel_prov_of : forall e a c c', rel (Some (nom_of e a ++ cache_of e a)) c c' ->
+  (~ In a (e_roots e) -> ~ In a (e_types e) -> c' = c) /\ same_except_l [nomF; cacheF] c c'.
+Proof.
+  intros e a c c' H. unfold nom_of, cache_of in H.
+  destruct (mem_a a (e_roots e)) eqn:M1; destruct (mem_a a (e_types e)) eqn:M2; simpl in H.
+  - split; auto. intros Hn _. exfalso. apply Hn. apply mem_a_In. exact M1.
+  - split; [intros Hn _; exfalso; apply Hn; apply mem_a_In; exact M1|].
+    eapply same_except_l_mono; [|exact H]. intros x [Hx|[]]; subst; simpl; auto.
+  - split; [intros _ Hn; exfalso; apply Hn; apply mem_a_In; exact M2|].
+    eapply same_except_l_mono; [|exact H]. intros x [Hx|[]]; subst; simpl; auto.
+  - subst. split; auto using same_except_l_refl.
 Qed.
 
 (* ------------------------------------------------------------------ statements about the generated table *)
@@ -481,21 +610,22 @@ Qed.
 Lemma generated_table_ok : table_ok table = true.
 Proof. vm_compute. reflexivity. Qed.
 
-Definition genv (roots slices : list addr) (book : addr) : env := mkEnv table roots slices book.
+Definition genv (roots slices types : list addr) (book : addr) : env := mkEnv table roots slices types book.
 
-(* Scheduler decisions only (no bookkeeping, no nomination): for any number of consecutive runs, any decisions,
-   nothing that existed before is written. *)
-Lemma scheduling_writes_fresh_only_l : forall roots slices book h (runs : list (list sop)) a,
+(* Scheduler decisions only (ExistingNode.Add, slice filtering and sorting, lazy precompute): for any number of
+   consecutive runs and any decisions, nothing that existed before is written, except the unset cache field of a
+   provider instance type; in particular no provider-owned map and no cluster-state cell. *)
+Lemma scheduling_writes_fresh_only_l : forall roots slices types book h (runs : list (list sop)) a,
   wf h -> a < next h ->
-  cells (run_all (genv roots slices book) h (map sched_ops runs)) a = cells h a.
+  let h' := run_all (genv roots slices types book) h (map sched_ops runs) in
+  (~ In a types -> cells h' a = cells h a) /\ same_except_l [cacheF] (cells h a) (cells h' a).
 Proof.
-  intros roots slices book h runs a Hwf Ha.
-  destruct (run_all_good (genv roots slices book) (map sched_ops runs) h generated_table_ok Hwf) as [_ [_ F]].
-  apply F; auto.
-  clear. induction runs as [|r rs IH]; simpl; auto.
-  apply andb_true_iff. split; auto.
-  unfold sched_ops. induction r as [|o r IHr]; simpl; auto.
-  destruct (is_sim_op o) eqn:E; simpl; auto. rewrite E. auto.
+  intros roots slices types book h runs a Hwf Ha. simpl.
+  set (e := genv roots slices types book).
+  destruct (run_all_x (al_sched e) e (map sched_ops runs) h generated_table_ok Hwf) as [_ [_ X]].
+  - apply Forall_forall. intros ops Hin. apply in_map_iff in Hin. destruct Hin as [r [Hr _]]. subst ops.
+    eapply Forall_impl; [|apply sched_ops_sim]. intros o Ho. apply permits_sched; auto.
+  - exact (rel_cache_of e a _ _ (X a Ha)).
 Qed.
 
 Lemma simulate_all_is_run_all : forall e calls h,
@@ -506,144 +636,36 @@ Proof.
   induction calls as [|c cs IH]; intros h; simpl; auto.
 Qed.
 
-Definition no_nom (o : sop) : bool := match o with PNominate _ _ => false | _ => true end.
-
-Lemma step_no_nom : forall e N copies h o x, St N h -> Forall (opt_ge N) copies -> no_nom o = true ->
-  x < N -> x <> e_book e -> cells (step e copies h o) x = cells h x.
+Lemma sim_ops_no_nom : forall e c,
+  Forall (permits (al_sim e) e) (map PMark (pending_marks (s_outcome c) (s_rejected c)) ++ sched_ops (s_decisions c)).
 Proof.
-  intros e N copies h o x HSt Hc Ho Hx Hxb.
-  destruct (step_good e N copies h o HSt Hc) as [_ [_ F]].
-  destruct o as [i key|s mask|i t|pod]; try discriminate Ho.
-  - destruct (F eq_refl) as [_ B]. apply B; auto.
-  - destruct (F eq_refl) as [_ B]. apply B; auto.
-  - simpl. unfold leaf_append. destruct (cells h (e_book e)); auto.
-    unfold write; simpl. destruct (Nat.eqb x (e_book e)) eqn:Ex; auto.
-    apply Nat.eqb_eq in Ex. contradiction.
+  intros e c. apply Forall_app. split.
+  - apply Forall_forall. intros o Hin. apply in_map_iff in Hin. destruct Hin as [p [Hp _]]. subst o.
+    apply permits_sim. reflexivity.
+  - eapply Forall_impl; [|apply sched_ops_sim]. intros o Ho. apply permits_sim. destruct o; simpl in *; auto; discriminate.
 Qed.
 
-Lemma steps_no_nom : forall e N copies ops h x, St N h -> Forall (opt_ge N) copies -> forallb no_nom ops = true ->
-  x < N -> x <> e_book e -> cells (fold_left (step e copies) ops h) x = cells h x.
-Proof.
-  intros e N copies ops. induction ops as [|o ops IH]; intros h x HSt Hc Hn Hx Hxb; simpl; auto.
-  simpl in Hn. apply andb_true_iff in Hn. destruct Hn as [Ho Hn].
-  destruct (step_good e N copies h o HSt Hc) as [S1 _].
-  rewrite IH; auto. apply (step_no_nom e N); auto.
-Qed.
+Lemma sim_runs_permitted : forall e calls,
+  Forall (Forall (permits (al_sim e) e))
+    (map (fun c => map PMark (pending_marks (s_outcome c) (s_rejected c)) ++ sched_ops (s_decisions c)) calls).
+Proof. intros e calls. induction calls; simpl; constructor; auto using sim_ops_no_nom. Qed.
 
-Lemma run_no_nom : forall e h ops x, table_ok (e_tbl e) = true -> wf h -> forallb no_nom ops = true ->
-  x < next h -> x <> e_book e -> cells (run e h ops) x = cells h x.
-Proof.
-  intros e h ops x Hok Hwf Hn Hx Hxb. unfold run.
-  destruct (copy_nodes (e_tbl e) h (e_roots e)) as [h1 copies] eqn:Ec.
-  destruct (copy_nodes_good (next h) _ _ _ _ _ Hok (St_start h Hwf) Ec) as [[S1 [_ B1]] C1].
-  rewrite (steps_no_nom e (next h)); auto.
-Qed.
-
-Lemma run_all_no_nom : forall e runs h x, table_ok (e_tbl e) = true -> wf h ->
-  forallb (forallb no_nom) runs = true ->
-  x < next h -> x <> e_book e -> cells (run_all e h runs) x = cells h x.
-Proof.
-  intros e runs. induction runs as [|ops runs IH]; intros h x Hok Hwf Hn Hx Hxb; simpl; auto.
-  simpl in Hn. apply andb_true_iff in Hn. destruct Hn as [Ho Hn].
-  destruct (run_good e h ops Hok Hwf) as [W1 [[N1 _] _]].
-  rewrite IH; auto; [|lia]. apply run_no_nom; auto.
-Qed.
-
-(* The faithful SimulateScheduling (which marks rejected pending pods): everything except the bookkeeping cell is
-   untouched, for any number of consecutive simulations with any outcome. *)
-Lemma simulate_writes_fresh_only_l : forall roots slices book h calls a,
+(* The faithful SimulateScheduling (which marks rejected pending pods): apart from the bookkeeping cell and the
+   unset cache field of provider instance types, every cell that existed before is untouched, for any number of
+   consecutive simulations with any outcome. *)
+Lemma simulate_writes_fresh_only_l : forall roots slices types book h calls a,
   wf h -> a < next h -> a <> book ->
-  cells (simulate_all (genv roots slices book) h calls) a = cells h a.
+  let h' := simulate_all (genv roots slices types book) h calls in
+  (~ In a types -> cells h' a = cells h a) /\ same_except_l [cacheF] (cells h a) (cells h' a).
 Proof.
-  intros roots slices book h calls a Hwf Ha Hb.
+  intros roots slices types book h calls a Hwf Ha Hb. simpl.
   rewrite simulate_all_is_run_all.
-  apply run_all_no_nom; auto; try apply generated_table_ok.
-  clear. induction calls as [|c cs IH]; simpl; auto.
-  apply andb_true_iff. split; auto.
-  rewrite forallb_app. apply andb_true_iff. split.
-  - induction (pending_marks (s_outcome c) (s_rejected c)); simpl; auto.
-  - unfold sched_ops. induction (s_decisions c) as [|o r IHr]; simpl; auto.
-    destruct o; simpl; auto.
-Qed.
-
-(* The property text at full strength fails on the faithful model: one simulation of a cluster with a pending pod
-   that fails validation changes the cluster's pod bookkeeping. *)
-Definition wit_heap : heap := mkHeap (fun a => match a with 0 => CLeaf [] | _ => CFree end) 1.
-
-Lemma simulate_changes_nothing_refuted_l :
-  exists roots slices book h calls a,
-    wf h /\ a < next h /\ cells (simulate_all (genv roots slices book) h calls) a <> cells h a.
-Proof.
-  exists [], [], 0, wit_heap, [mkSim OOk [7%Z] []], 0.
-  split; [|split].
-  - intros a Ha. unfold wit_heap in *. simpl in *. destruct a; [lia|reflexivity].
-  - simpl. lia.
-  - vm_compute. discriminate.
-Qed.
-
-(* ... and holds when no pending pod is marked: no pod fails validation, or the call returns before
-   GetPendingPods (candidate already deleting, listing failed). *)
-Lemma simulate_changes_nothing_partial_l : forall roots slices book h calls a,
-  wf h -> a < next h ->
-  Forall (fun c => pending_marks (s_outcome c) (s_rejected c) = []) calls ->
-  cells (simulate_all (genv roots slices book) h calls) a = cells h a.
-Proof.
-  intros roots slices book h calls a Hwf Ha Hall.
-  rewrite simulate_all_is_run_all.
-  replace (map (fun c => map PMark (pending_marks (s_outcome c) (s_rejected c)) ++ sched_ops (s_decisions c)) calls)
-    with (map sched_ops (map s_decisions calls)).
-  - apply scheduling_writes_fresh_only_l; auto.
-  - rewrite map_map. induction Hall as [|c cs Hc _ IH]; simpl; auto.
-    rewrite Hc. simpl. rewrite IH. reflexivity.
-Qed.
-
-(* A provisioning pass (and any mix of passes and simulations, any number of them): below the allocation pointer,
-   only the bookkeeping cell and the nominatedUntil field of the cluster's own nodes may differ. *)
-Lemma provision_writes_only_nomination_and_bookkeeping_l : forall roots slices book h (runs : list (list sop)) a,
-  wf h -> a < next h -> a <> book ->
-  same_except "nominatedUntil" (cells h a) (cells (run_all (genv roots slices book) h runs) a) /\
-  (~ In a roots -> cells (run_all (genv roots slices book) h runs) a = cells h a).
-Proof.
-  intros roots slices book h runs a Hwf Ha Hb.
-  destruct (run_all_good (genv roots slices book) runs h generated_table_ok Hwf) as [_ [[_ P] _]].
-  exact (P a Ha Hb).
-Qed.
-
-Lemma provision_is_run : forall e h o rej dec marked nom,
-  exists ops, provision e h o rej dec marked nom = run e h ops.
-Proof. intros. eexists. reflexivity. Qed.
-
-(* The deep-copy facts are necessary: with a table that leaves hostPortUsage shallow the same run writes the
-   cluster's own host-port map. *)
-Definition shallow_table : ttable :=
-  [("StateNode", [("hostPortUsage", FShallow); ("volumeUsage", FDeepObj "VolumeUsage")]);
-   ("HostPortUsage", [("reserved", FDeepLeaf)]);
-   ("VolumeUsage", [("volumes", FDeepLeaf); ("podVolumes", FDeepLeaf); ("limits", FDeepLeaf)])].
-
-Definition demo_heap : heap :=
-  mkHeap (fun a => match a with
-                   | 0 => CLeaf []                                                        (* bookkeeping *)
-                   | 1 => CLeaf [11%Z]                                                    (* reserved *)
-                   | 2 => CObj "HostPortUsage" [("reserved", VRef (Some 1))]
-                   | 3 => CLeaf [] | 4 => CLeaf [] | 5 => CLeaf []                         (* volumes, podVolumes, limits *)
-                   | 6 => CObj "VolumeUsage" [("volumes", VRef (Some 3)); ("podVolumes", VRef (Some 4)); ("limits", VRef (Some 5))]
-                   | 7 => CObj "StateNode" [("hostPortUsage", VRef (Some 2)); ("volumeUsage", VRef (Some 6));
-                                            ("markedForDeletion", VInt 0); ("nominatedUntil", VInt 0)]
-                   | 8 => CLeaf [30%Z; 10%Z; 20%Z]                                        (* provider slice *)
-                   | _ => CFree end) 9.
-
-Lemma demo_wf : wf demo_heap.
-Proof.
-  intros a Ha. unfold demo_heap in *. simpl in *.
-  do 9 (destruct a as [|a]; [lia|]). reflexivity.
-Qed.
-
-Lemma shallow_copy_would_leak_l :
-  exists h ops a, wf h /\ a < next h /\ forallb is_sim_op ops = true /\
-    cells (run (mkEnv shallow_table [7] [8] 0) h ops) a <> cells h a.
-Proof.
-  exists demo_heap, [SAddPod 0 42%Z], 1. split; [apply demo_wf|split; [simpl; lia|split; [reflexivity|]]].
-  vm_compute. discriminate.
+  set (e := genv roots slices types book).
+  destruct (run_all_x (al_sim e) e _ h generated_table_ok Hwf (sim_runs_permitted e calls))
+    as [_ [_ X]].
+  specialize (X a Ha). unfold al_sim in X. simpl in X.
+  destruct (Nat.eqb a book) eqn:Eb; [apply Nat.eqb_eq in Eb; contradiction|].
+  exact (rel_cache_of e a _ _ X).
 Qed.
 
 (* ------------------------------------------------------------------ the oracle *)
